@@ -78,6 +78,17 @@ VARIANTS = [
 ]
 
 
+
+def threshold(body, lhs, what):
+    """exclusive upper bound N of a test `lhs < N` (also accepted: `lhs <= N-1`, `N > lhs`, `N-1 >= lhs`, digits with _)"""
+    num = r"([\d_]+)(?:u64|u128)?"
+    for pat, adj in ((lhs + r"\s*<\s*" + num, 0), (lhs + r"\s*<=\s*" + num, 1), (num + r"\s*>\s*" + lhs, 0), (num + r"\s*>=\s*" + lhs, 1)):
+        m = re.search(pat, body)
+        if m:
+            return int(m.group(1).replace("_", "")) + adj
+    raise TieBroken(what)
+
+
 def main():
     out = []
     info = {}
@@ -201,15 +212,15 @@ def main():
     misc = {}
     misc["FAUCET_HASH"] = need(re.search(r"INFLATION_BUG_TX_HASH\s*:\s*&str\s*=\s*\"([0-9a-f]{64})\"", applytx), "INFLATION_BUG_TX_HASH").group(1)
     body = fn_body(applytx, r"fn\s+load_stake_info\s*<", "fn load_stake_info")
-    misc["LEGACY_STAKE_REG_HEIGHT"] = int(need(re.search(r"this\.height\.0\s*<\s*(\d+)", body), "legacy stake registration height").group(1))
+    misc["LEGACY_STAKE_REG_HEIGHT"] = threshold(body, r"this\.height\.0", "legacy stake registration height")
     body = fn_body(applytx, r"fn\s+check_tx_validity\s*<", "fn check_tx_validity")
-    misc["LEGACY_STAKE_LOCK_HEIGHT"] = int(need(re.search(r"this\.height\.0\s*<\s*(\d+)", body), "legacy stake lock height").group(1))
+    misc["LEGACY_STAKE_LOCK_HEIGHT"] = threshold(body, r"this\.height\.0", "legacy stake lock height")
     body = fn_body(applytx, r"fn\s+validate_and_get_doscmint_speed\s*<", "fn validate_and_get_doscmint_speed")
     misc["DOSCMINT_MIN_AGE"] = int(need(re.search(r"\(this\.height\s*-\s*coin_data\.height\)\.0\s*<\s*(\d+)\s*&&\s*this\.network\s*==\s*NetID::Mainnet", body), "doscmint minimum age").group(1))
     body = fn_body(applytx, r"fn\s+compute_doscmint_speed\s*\(", "fn compute_doscmint_speed")
     misc["TIP910_SPEED_FACTOR"] = int(need(re.search(r"if\s+is_tip910\s*\{\s*(\d+)\s*\}\s*else\s*\{\s*1\s*\}", body), "tip910 speed factor").group(1))
     body = fn_body(melmint, r"fn\s+process_deposits_for_single_pool\s*<", "fn process_deposits_for_single_pool")
-    misc["LEGACY_DEPOSIT_HEIGHT"] = int(need(re.search(r"state\.height\.0\s*<\s*(\d+)", body), "legacy deposit height").group(1))
+    misc["LEGACY_DEPOSIT_HEIGHT"] = threshold(body, r"state\.height\.0", "legacy deposit height")
     body = fn_body(melmint, r"fn\s+process_pegging\s*<", "fn process_pegging")
     mm = need(re.search(r"let\s+throttler\s*=\s*if\s+state\.tip_902\(\)\s*\{\s*(\d+)\s*\}\s*else\s*\{\s*(\d+)\s*\}", body), "pegging throttler")
     misc["THROTTLER_902"], misc["THROTTLER_PRE"] = int(mm.group(1)), int(mm.group(2))
